@@ -507,7 +507,7 @@ func checkLimit(prop string, sc *LimitSc, res *simrt.Result) Verdict {
 		if q > 1<<30 {
 			v.probe("huge-quantity")
 		}
-	case "C19", "C20":
+	case "C19":
 		checkGoroutines(&v, res, outClosed, "output closed", false)
 	}
 
